@@ -210,6 +210,9 @@ def cases(tier, seed):
     for k in range(nt):
         i += 1
         yield {"id": i, "fam": "term", "seed": base + k}
+    for k in range(60 if tier == "quick" else 600):
+        i += 1
+        yield {"id": i, "fam": "apiterm", "seed": base + k}
     nv = 14 if tier == "quick" else 150
     for k in range(nv):
         rng = random.Random(base + k)
@@ -229,6 +232,10 @@ def cases(tier, seed):
 _R = {}
 
 
+class ApiRoundsExceeded(BaseException):
+    """process_events keeps feeding its own outgoing events back without end (BaseException: no handler may swallow it)."""
+
+
 def setup_worker():
     from . import steps, v2h
 
@@ -242,6 +249,11 @@ def setup_worker():
     _R["max_ratio"] = 0.0
 
     def budgeted(state, event):
+        lim = _R.get("rtc_limit")
+        if lim is not None and _R["rtc_in_call"] >= lim:
+            _R["rtc_limit"] = None
+            raise ApiRoundsExceeded("more than %d run_to_completion rounds inside one process_events call" % lim)
+        _R["rtc_in_call"] = _R.get("rtc_in_call", 0) + 1
         b = v2h.budget_for(state)
         steps.start(b)
         try:
@@ -282,6 +294,77 @@ def run_term(case):
         obs["max_step_ratio"] = round(getattr(st, "_vp_max_ratio", 0.0), 4) if st is not None else 0
         return dict(base, verdict="held", observed=obs, note="exception %s escaped run_to_completion (judged by the isolation family)" % type(e).__name__)
     obs["max_step_ratio"] = round(getattr(st, "_vp_max_ratio", 0.0), 4)
+    return dict(base, verdict="held", observed=obs)
+
+
+
+# ------------------------------------------------------------------ termination through the public API
+# RuntimeV2_x.process_events feeds outgoing events back as input events, so flows can talk to each other through ordinary
+# (non-internal) events. Every loop below contains a waiting statement; processing ONE external event must still end
+# within a bound that depends on the program only (the runtime's own event budget `max_events` ends such cycles).
+def gen_apiterm(rng):
+    kind = rng.choice(["pingpong", "ring", "fanout", "selfecho", "decay"])
+    n = rng.randint(2, 4)
+    if kind == "pingpong":
+        src = "flow main\n  activate ping\n  activate pong\n  activate witness\n  match Never()\n\nflow ping\n  match Ping()\n  send Pong()\n\nflow pong\n  match Pong()\n  send Ping()\n"
+        first = "Ping"
+    elif kind == "ring":
+        names = ["R%d" % i for i in range(n)]
+        src = "flow main\n" + "".join("  activate r%s\n" % "abcd"[i] for i in range(n)) + "  activate witness\n  match Never()\n\n"
+        for i in range(n):
+            src += "flow r%s\n  match %s()\n  send %s()\n\n" % ("abcd"[i], names[i], names[(i + 1) % n])
+        first = names[0]
+    elif kind == "fanout":
+        src = "flow main\n  activate fa\n  activate fb\n  activate witness\n  match Never()\n\n@loop(\"a\")\nflow fa\n  match Tick()\n  send Tock()\n\n@loop(\"b\")\nflow fb\n  match Tock()\n  send Tick()\n"
+        first = "Tick"
+    elif kind == "selfecho":
+        src = "flow main\n  activate echo\n  activate witness\n  match Never()\n\nflow echo\n  match Echo()\n  send Echo()\n"
+        first = "Echo"
+    else:
+        # a cycle that ends by itself after a few rounds
+        src = "flow main\n  activate witness\n  start cnt\n  match Never()\n\nflow cnt\n  $i = 0\n  while $i < %d\n    match Step()\n    send Step()\n    $i = $i + 1\n" % rng.randint(2, 6)
+        first = "Step"
+    src += "\n@loop(\"w\")\nflow witness\n  match W()\n  send OutW()\n"
+    return src, first, kind
+
+
+def run_apiterm(case):
+    from . import steps
+
+    rng = random.Random(case["seed"])
+    src, first, kind = gen_apiterm(rng)
+    base = {"key": src, "nontrivial": True, "sample": {"program": src, "first_event": first, "kind": kind}, "fam": "apiterm", "meta": {"kind": "api-" + kind}}
+    obs = {"apiterm_" + kind: 1}
+
+    async def go():
+        from nemoguardrails import RailsConfig
+
+        rt = _R["rt"]
+        runtime = rt.RuntimeV2_x(RailsConfig.from_content(src, 'colang_version: "2.x"\nmodels: []\n'))
+        limit = 4 * int(getattr(runtime, "max_events", 500)) + 200
+        out, st = await runtime.process_events([], None)
+        rounds = []
+        for ev in (first, "W", first, "W"):
+            _R["rtc_in_call"], _R["rtc_limit"] = 0, limit
+            out, st = await runtime.process_events([{"type": ev}], st)
+            rounds.append((ev, _R["rtc_in_call"], [e["type"] for e in out].count("OutW")))
+        return rounds, limit
+
+    try:
+        rounds, limit = asyncio.run(go())
+    except ApiRoundsExceeded as e:
+        return dict(base, verdict="violated", observed=obs, mech="process-events-does-not-return", witness={"program": src, "event": first, "detail": str(e)})
+    except steps.StepBudgetExceeded as e:
+        return dict(base, verdict="violated", observed=obs, mech="step-budget-exceeded", witness={"program": src, "event": first, "detail": str(e)})
+    except Exception as e:
+        return dict(base, verdict="inconclusive", reason="apiterm-raised:%s" % type(e).__name__, detail=str(e)[:300], observed=obs)
+    finally:
+        _R["rtc_limit"] = None
+    obs["max_rtc_rounds_per_api_call"] = max(r[1] for r in rounds)
+    obs["api_calls_checked"] = len(rounds)
+    # the unrelated witness still reacts to its event after each (cut short) cycle
+    if any(ev == "W" and outw != 1 for ev, _n, outw in rounds):
+        return dict(base, verdict="violated", observed=obs, mech="witness-silent-after-event-cycle", witness={"program": src, "rounds": rounds})
     return dict(base, verdict="held", observed=obs)
 
 
@@ -384,10 +467,14 @@ def run_iso(case):
 def run_case(case):
     if case["fam"] == "term":
         return run_term(case)
+    if case["fam"] == "apiterm":
+        return run_apiterm(case)
     return run_iso(case)
 
 
 def classify(r):
+    if r.get("fam") == "apiterm":
+        return "api-termination:%s" % r.get("mech")
     if r.get("fam") == "term":
         m = r.get("meta", {})
         if m.get("fails_before_wait"):
